@@ -3,7 +3,7 @@ from __future__ import annotations
 
 import random
 
-from .codec import Some, opt
+from .codec import WILD, Some, opt
 
 MODES = [(False, False), (False, True), (True, False), (True, True)]
 
@@ -219,69 +219,96 @@ def mk_records(recs):
     ]
 
 
-def battery_str(c, s):
-    from curies.api import ReferenceTuple
+# Which answers a check looks at.  KEEP is None (all) or a set of method names; every other answer is not even requested
+# and is sent as the wildcard, so that a check only speaks about the methods its property speaks about.
+KEEP = None
+STR_HEAD = ["parse_uri", "parse_uri", "is_uri", "parse_curie", "parse_curie", "is_curie", "expand_all", "expand_all", "parse", "parse",
+            "compress_strict", "expand_strict"]
+STR_MODE = ["compress", "expand", "compress_or_standardize", "expand_or_standardize", "standardize_prefix", "standardize_curie",
+            "standardize_uri"]
+PAIR_HEAD = ["expand_pair_all", "expand_pair_all", "format_curie", "get_record"]
+PAIR_MODE = ["expand_pair", "expand_reference"]
+INTRO = ["bimap", "reverse_bimap", "get_prefixes", "get_prefixes", "get_uri_prefixes", "get_uri_prefixes", "records", "prefix_map",
+         "reverse_prefix_map", "synonym_to_prefix", "pattern_map"]
+# the two primitive parsers, the expansion family, prefix standardisation and the introspection attributes: what "the converter
+# denoted by these records" means for the construction / derivation properties (C04, C05, C09-C13); the derived operations
+# (parse, *_or_standardize, standardize_curie / standardize_uri, *_strict aliases) are the business of C03, C06, C07
+PRIMITIVES = {"parse_uri", "is_uri", "compress", "parse_curie", "is_curie", "expand", "expand_all", "expand_pair", "expand_reference",
+              "expand_pair_all", "standardize_prefix", "format_curie", "get_record"} | set(INTRO)
 
-    o = [
-        outcome(lambda: c.parse_uri(s, return_none=True), v_oref),
-        outcome(lambda: c.parse_uri(s, strict=True, return_none=True), v_oref),
-        outcome(lambda: c.is_uri(s), int),
-        outcome(lambda: c.parse_curie(s), v_oref),
-        outcome(lambda: c.parse_curie(s, strict=True), v_oref),
-        outcome(lambda: c.is_curie(s), int),
-        outcome(lambda: c.expand_all(s), v_ostrs),
-        outcome(lambda: c.expand_all(s, strict=True), v_ostrs),
-        outcome(lambda: c.parse(s, strict=False), v_oref),
-        outcome(lambda: c.parse(s, strict=True), v_oref),
-        outcome(lambda: c.compress_strict(s), v_ostr),
-        outcome(lambda: c.expand_strict(s), v_ostr),
+
+def _masked(names, thunks):
+    if KEEP is None:
+        return [t() for t in thunks]
+    return [t() if n in KEEP else WILD for n, t in zip(names, thunks)]
+
+
+def battery_str(c, s):
+    th = [
+        lambda: outcome(lambda: c.parse_uri(s, return_none=True), v_oref),
+        lambda: outcome(lambda: c.parse_uri(s, strict=True, return_none=True), v_oref),
+        lambda: outcome(lambda: c.is_uri(s), int),
+        lambda: outcome(lambda: c.parse_curie(s), v_oref),
+        lambda: outcome(lambda: c.parse_curie(s, strict=True), v_oref),
+        lambda: outcome(lambda: c.is_curie(s), int),
+        lambda: outcome(lambda: c.expand_all(s), v_ostrs),
+        lambda: outcome(lambda: c.expand_all(s, strict=True), v_ostrs),
+        lambda: outcome(lambda: c.parse(s, strict=False), v_oref),
+        lambda: outcome(lambda: c.parse(s, strict=True), v_oref),
+        lambda: outcome(lambda: c.compress_strict(s), v_ostr),
+        lambda: outcome(lambda: c.expand_strict(s), v_ostr),
     ]
+    names = list(STR_HEAD)
     for st, pa in MODES:
         kw = dict(strict=st, passthrough=pa)
-        o += [
-            outcome(lambda: c.compress(s, **kw), v_ostr),
-            outcome(lambda: c.expand(s, **kw), v_ostr),
-            outcome(lambda: c.compress_or_standardize(s, **kw), v_ostr),
-            outcome(lambda: c.expand_or_standardize(s, **kw), v_ostr),
-            outcome(lambda: c.standardize_prefix(s, **kw), v_ostr),
-            outcome(lambda: c.standardize_curie(s, **kw), v_ostr),
-            outcome(lambda: c.standardize_uri(s, **kw), v_ostr),
+        th += [
+            lambda kw=kw: outcome(lambda: c.compress(s, **kw), v_ostr),
+            lambda kw=kw: outcome(lambda: c.expand(s, **kw), v_ostr),
+            lambda kw=kw: outcome(lambda: c.compress_or_standardize(s, **kw), v_ostr),
+            lambda kw=kw: outcome(lambda: c.expand_or_standardize(s, **kw), v_ostr),
+            lambda kw=kw: outcome(lambda: c.standardize_prefix(s, **kw), v_ostr),
+            lambda kw=kw: outcome(lambda: c.standardize_curie(s, **kw), v_ostr),
+            lambda kw=kw: outcome(lambda: c.standardize_uri(s, **kw), v_ostr),
         ]
-    return o
+        names += STR_MODE
+    return _masked(names, th)
 
 
 def battery_pair(c, p, i):
     from curies.api import ReferenceTuple
 
-    o = [
-        outcome(lambda: c.expand_pair_all(p, i), v_ostrs),
-        outcome(lambda: c.expand_pair_all(p, i, strict=True), v_ostrs),
-        outcome(lambda: c.format_curie(p, i)),
-        outcome(lambda: c.get_record(p), lambda r: None if r is None else Some(v_record(r))),
+    th = [
+        lambda: outcome(lambda: c.expand_pair_all(p, i), v_ostrs),
+        lambda: outcome(lambda: c.expand_pair_all(p, i, strict=True), v_ostrs),
+        lambda: outcome(lambda: c.format_curie(p, i)),
+        lambda: outcome(lambda: c.get_record(p), lambda r: None if r is None else Some(v_record(r))),
     ]
+    names = list(PAIR_HEAD)
     for st, pa in MODES:
         kw = dict(strict=st, passthrough=pa)
-        o += [
-            outcome(lambda: c.expand_pair(p, i, **kw), v_ostr),
-            outcome(lambda: c.expand_reference(ReferenceTuple(p, i), **kw), v_ostr),
+        th += [
+            lambda kw=kw: outcome(lambda: c.expand_pair(p, i, **kw), v_ostr),
+            lambda kw=kw: outcome(lambda: c.expand_reference(ReferenceTuple(p, i), **kw), v_ostr),
         ]
-    return o
+        names += PAIR_MODE
+    return _masked(names, th)
 
 
 def battery_intro(c):
-    return [
-        outcome(lambda: c.bimap, v_dict),
-        outcome(lambda: c.reverse_bimap, v_dict),
-        outcome(lambda: c.get_prefixes(), sorted),
-        outcome(lambda: c.get_prefixes(include_synonyms=True), sorted),
-        outcome(lambda: c.get_uri_prefixes(), sorted),
-        outcome(lambda: c.get_uri_prefixes(include_synonyms=True), sorted),
-        outcome(lambda: c.records, lambda rs: [v_record(r) for r in sorted(rs, key=lambda r: r.prefix)]),
-        outcome(lambda: c.prefix_map, v_dict),
-        outcome(lambda: c.reverse_prefix_map, v_dict),
-        outcome(lambda: c.synonym_to_prefix, v_dict),
-        outcome(lambda: c.pattern_map, v_dict),
+    th = [
+        lambda: outcome(lambda: c.bimap, v_dict),
+        lambda: outcome(lambda: c.reverse_bimap, v_dict),
+        lambda: outcome(lambda: c.get_prefixes(), sorted),
+        lambda: outcome(lambda: c.get_prefixes(include_synonyms=True), sorted),
+        lambda: outcome(lambda: c.get_uri_prefixes(), sorted),
+        lambda: outcome(lambda: c.get_uri_prefixes(include_synonyms=True), sorted),
+        lambda: outcome(lambda: c.records, lambda rs: [v_record(r) for r in sorted(rs, key=lambda r: r.prefix)]),
+        lambda: outcome(lambda: c.prefix_map, v_dict),
+        lambda: outcome(lambda: c.reverse_prefix_map, v_dict),
+        lambda: outcome(lambda: c.synonym_to_prefix, v_dict),
+        lambda: outcome(lambda: c.pattern_map, v_dict),
     ]
+    return _masked(INTRO, th)
 
 
 def battery(c, strs, pairs):
